@@ -169,6 +169,16 @@ pub fn feelimit_policy(network: bitcoin::Network) -> lightning_signer::policy::s
     policy
 }
 
+/// A policy whose payment velocity limit is exactly one "v1" amount (100 000 msat) per hour: after one approval
+/// every further approval within the hour must be declined (reply flag 0).
+pub fn paylimit_policy(network: bitcoin::Network) -> lightning_signer::policy::simple_validator::SimplePolicy {
+    use lightning_signer::util::velocity::{VelocityControlIntervalType, VelocityControlSpec};
+    let mut policy = lightning_signer::policy::simple_validator::make_default_simple_policy(network);
+    policy.global_velocity_control =
+        VelocityControlSpec { limit_msat: 100_000, interval_type: VelocityControlIntervalType::Hourly };
+    policy
+}
+
 pub fn apply(fx: &NodeFx, r: &Value) -> Value {
     let op = r["op"].as_str().unwrap();
     let list = || -> Vec<String> {
